@@ -10,12 +10,14 @@ use std::process::Command;
 
 const KEYS: [&str; 8] = ["a", "b-c", "\"q k\"", "\"-x\"", "a.b", "t-1.u", "x.\"--y\".z", "\"\""];
 
-const VALUES: [&str; 52] = [
+const VALUES: [&str; 55] = [
     "0", "1", "-1", "+1", "1_000", "2147483647", "-2147483648", "0x1F", "0o17", "0b101",
     "1.5", "-1.5", "+1.5", "1e3", "-0.0", "5e-324", "inf", "-inf", "+inf", "nan", "-nan",
     "true", "false",
     "\"s\"", "\"\"", "\"é\"", "\"a\\nb\"", "\"q\\\"x\"", "\"-\"",
     "1979-05-27", "07:32:00", "00:32:00.999999", "1979-05-27T07:32:00", "1979-05-27T07:32:00Z", "1979-05-27T07:32:00-07:00", "1979-05-27 07:32:00", "1979-05-27 07:32:00-07:00", "1979-05-27T00:32:00.999999-07:00", "1979-05-27 00:32:00.5Z",
+    // leap second
+    "23:59:60", "1998-12-31T23:59:60Z", "1998-12-31 23:59:60.5-00:00",
     // lower-case delimiter / zulu (RFC 3339 allows both cases)
     "1979-05-27t07:32:00", "1979-05-27t07:32:00z", "1979-05-27T07:32:00z", "1979-05-27t00:32:00.5-07:00",
     // more fraction digits than fit in nanoseconds (truncated by both routes)
@@ -25,7 +27,7 @@ const VALUES: [&str; 52] = [
 
 const NESTS: [(&str, &str); 9] = [("[", "]"), ("[", ",]"), ("[1, ", "]"), ("[[", "], []]"), ("{ k = ", " }"), ("{ k.j = ", ", z = 1 }"), ("[{ k = ", " }, { k = 1 }]"), ("{ k = [", "] }"), ("[\"s\", ", ", { a = 1 }]")];
 
-const HEADERS: [&str; 9] = ["[t]", "[t.u]", "[t-1]", "[\"q k\"]", "[t.\"-v\"]", "[[arr]]", "[[arr.sub]]", "[[\"--w\"]]", "[a.b.c]"];
+const HEADERS: [&str; 12] = ["[t]", "[t.u]", "[t-1]", "[\"q k\"]", "[t.\"-v\"]", "[[arr]]", "[[arr.sub]]", "[[\"--w\"]]", "[a.b.c]", "[[my-bin]]", "[[a-b.c-d]]", "[x-y.z-w]"];
 
 pub fn documents(tier: Tier) -> Vec<String> {
     let mut out: BTreeSet<String> = BTreeSet::new();
@@ -86,8 +88,9 @@ pub fn documents(tier: Tier) -> Vec<String> {
             }
         }
     }
-    // only documents the parser accepts are in the quantifier
-    out.into_iter().filter(|d| d.parse::<toml::Table>().is_ok()).collect()
+    // the quantifier is "documents that are valid TOML" - decided by the specification model, not by the parser under
+    // test (a valid document the run-time parser refuses is reported by the generated program as a disagreement)
+    out.into_iter().filter(|d| matches!(refmodel::ref_parse(d), refmodel::Verdict::Valid { ref limits, .. } if !limits.any())).collect()
 }
 
 fn rust_str(s: &str) -> String {
@@ -175,7 +178,7 @@ fn run_range(docs: &[String], lo: usize, hi: usize, slot: usize, acc: &mut Acc, 
                     (Some("PARSE-ERR"), Some(i)) => {
                         seen += 1;
                         acc.evals += 1;
-                        acc.viol("U-macro", docs[i].clone(), None, format!("runtime parse fails although the generator's parse succeeded: {}", it.next().unwrap_or("")));
+                        acc.viol("U-macro", docs[i].clone(), None, format!("toml!{{..}} builds a table but parsing the same (valid) text fails: {}", it.next().unwrap_or("")));
                     }
                     (Some("CRASH"), _) => acc.viol("U-macro", format!("program for documents {}..{}", lo, hi), None, line.to_string()),
                     _ => {}
